@@ -42,7 +42,7 @@ func (s *Sim) Begin() bool {
 		}
 	}
 	var evid []rtypes.Address
-	if h >= 2 && s.R.Chance(8) {
+	if h >= 2 && s.R.Chance(12) {
 		n := s.R.Pick(6, 2, 1) + 1
 		for i := 0; i < n; i++ {
 			switch s.R.Pick(6, 2, 1) {
@@ -56,6 +56,10 @@ func (s *Sim) Begin() bool {
 				evid = append(evid, s.R.Bytes(20))
 			}
 		}
+	}
+	if h >= 2 && len(s.PendingEvidence) > 0 {
+		evid = append(evid, s.PendingEvidence...)
+		s.PendingEvidence = nil
 	}
 	return s.BeginWith(&BeginArgs{H: h, T: s.Time, Proposer: proposer, Votes: votes, Evid: evid})
 }
